@@ -2,35 +2,45 @@
 
    Objects are [oid]s; a slot [(x, f)] of the heap holds the LIST of next objects:
    0/1 object for an Instance trait, the container object for a List/Dict/Set trait,
-   and the items for the pseudo-field of a container object.  An observer graph is
-   [G f notify children] (ObserverGraph(node=..., children=[...]),
-   traits/observation/_observer_graph.py); named traits and list/dict/set item
-   observers are one node kind because both have exactly one observable (the slot)
-   and yield the slot's content as next objects (IObserver.iter_observables /
-   iter_objects).
+   and the items for the pseudo-field of a container object.  [traits] says which traits an
+   object has (instance traits can be added with add_trait).
+
+   An observer graph node is given, exactly as the IObserver interface, by the observables
+   and next objects it yields on an object x:
+       G fs notify extra children
+   observes the slots (x, f) for f in fs such that x has trait f (iter_observables), and yields
+   their content as next objects (iter_objects).  A NamedTraitObserver is fs = [name]
+   (optional=True: skipped on objects without the trait), a List/Dict/SetItemObserver is
+   fs = [items pseudo-field], a FilteredTraitObserver (match / metadata / anytrait) is fs = the
+   trait names matching the filter.  [extra] = the node contributes the trait_added extra graph
+   (iter_extra_graphs of named and filtered observers): a TraitAddedObserver maintainer
+   [KAdded key g] on (x, trait_added), present whether or not x has the trait yet.
 
    A notifier is identified by the key (handler, target) — TraitEventNotifier.equals /
-   ObserverChangeNotifier.equals (_trait_event_notifier.py l.206, _observer_change_notifier.py l.163).
-   The hook state is a flat list of [(x, f, kind)]: the notifier list of observable (x, f)
-   is the sub-list of entries with that slot (same relative order); the reference count
-   of a user notifier is the number of its [KUser] entries.
+   ObserverChangeNotifier.equals.  The hook state is a flat list of [(x, f, kind)]: the notifier
+   list of observable (x, f) is the sub-list of entries with that slot (same relative order); the
+   reference count of a user notifier is the number of its [KUser] entries.
 
-   Contents: expected / visits / occ, frame and substitution theorems, the maintainers
-   found on a slot, invariant preservation for one change ([inv_preserved_all]), the
-   executable hook list ([remove1], [remove_all]) with soundness and completeness.
-   Grown from notes/feasibility/ObsList.v, ObsInv.v, ObsExec.v. *)
+   Contents: expected / visits / occ / matched, frame and substitution theorems for a heap
+   change, the trait-addition theorem, the maintainers found on a slot, invariant preservation
+   for one change ([inv_preserved_all]), the executable hook list ([remove1], [remove_all]) with
+   soundness and completeness.  Grown from notes/feasibility/ObsList.v, ObsInv.v, ObsExec.v. *)
 From Coq Require Import List Arith Lia Bool PeanoNat Permutation.
 Import ListNotations.
 
 Definition oid := nat.
 Definition fname := nat.
 Definition hkey := (nat * oid)%type.          (* (handler id, target object) *)
-Inductive graph := G (f : fname) (notify : bool) (children : list graph).
+Inductive graph := G (fs : list fname) (notify extra : bool) (children : list graph).
 Definition heap := oid -> fname -> list oid.
+Definition traits := oid -> fname -> bool.
+Definition TA : fname := 10.                   (* the trait_added event trait *)
 Definition slot_eqb (x : oid) (f : fname) (o : oid) (fo : fname) := (Nat.eqb x o && Nat.eqb f fo)%bool.
 Definition upd (h : heap) (o : oid) (f : fname) (v : list oid) : heap :=
   fun o' f' => if slot_eqb o' f' o f then v else h o' f'.
-Inductive kind := KUser (k : hkey) | KMaint (k : hkey) (c : graph).
+Definition add_trait (t : traits) (o : oid) (f : fname) : traits :=
+  fun o' f' => if slot_eqb o' f' o f then true else t o' f'.
+Inductive kind := KUser (k : hkey) | KMaint (k : hkey) (c : graph) | KAdded (k : hkey) (g : graph).
 Notation hook := (oid * fname * kind)%type (only parsing).
 Definition reg := (hkey * graph)%type.        (* observe(handler, graph) on root = target = snd key *)
 
@@ -41,44 +51,53 @@ Proof. apply slot_eqb_true. split; reflexivity. Qed.
 Lemma upd_same h o f v : upd h o f v o f = v.
 Proof. unfold upd. rewrite slot_eqb_refl. reflexivity. Qed.
 
-(* The hooks that must be present for (key k, graph g) applied to object x in heap h. *)
-Fixpoint expected (h : heap) (k : hkey) (g : graph) (x : oid) {struct g} : list hook :=
+(* the hooks of one observable of a node, and what hangs below it *)
+Definition own (k : hkey) (n : bool) (cs : list graph) (x : oid) (f : fname) : list hook :=
+  (if n then [(x, f, KUser k)] else []) ++ map (fun c => (x, f, KMaint k c)) cs.
+
+(* The hooks that must be present for (key k, graph g) applied to object x. *)
+Fixpoint expected (t : traits) (h : heap) (k : hkey) (g : graph) (x : oid) {struct g} : list hook :=
   match g with
-  | G f notify cs =>
-      (if notify then [(x, f, KUser k)] else []) ++
-      map (fun c => (x, f, KMaint k c)) cs ++
-      flat_map (fun y => flat_map (fun c => expected h k c y) cs) (h x f)
+  | G fs n e cs =>
+      (if e then [(x, TA, KAdded k g)] else []) ++
+      flat_map (fun f =>
+        if t x f then
+          own k n cs x f ++ flat_map (fun y => flat_map (fun c => expected t h k c y) cs) (h x f)
+        else []) fs
   end.
 
 (* does the walk of g from x pass through slot (o, fo)? *)
-Fixpoint visits (h : heap) (g : graph) (x o : oid) (fo : fname) {struct g} : bool :=
+Fixpoint visits (t : traits) (h : heap) (g : graph) (x o : oid) (fo : fname) {struct g} : bool :=
   match g with
-  | G f _ cs =>
-      slot_eqb x f o fo ||
-      existsb (fun y => existsb (fun c => visits h c y o fo) cs) (h x f)
+  | G fs _ _ cs =>
+      existsb (fun f => t x f &&
+        (slot_eqb x f o fo || existsb (fun y => existsb (fun c => visits t h c y o fo) cs) (h x f))) fs
   end.
 
 (* the child graphs hanging below each visit of slot (o, fo) *)
-Fixpoint occ (h : heap) (g : graph) (x o : oid) (fo : fname) {struct g} : list graph :=
+Fixpoint occ (t : traits) (h : heap) (g : graph) (x o : oid) (fo : fname) {struct g} : list graph :=
   match g with
-  | G f _ cs =>
-      (if slot_eqb x f o fo then cs else []) ++
-      flat_map (fun y => flat_map (fun c => occ h c y o fo) cs) (h x f)
+  | G fs _ _ cs =>
+      flat_map (fun f =>
+        if t x f then
+          (if slot_eqb x f o fo then cs else []) ++
+          flat_map (fun y => flat_map (fun c => occ t h c y o fo) cs) (h x f)
+        else []) fs
   end.
 
 (* is slot (o, fo) matched by a NOTIFYING node of g from x?  (the from-scratch
    reachability semantics of an expression; what the law recomputes) *)
-Fixpoint matched (h : heap) (g : graph) (x o : oid) (fo : fname) {struct g} : bool :=
+Fixpoint matched (t : traits) (h : heap) (g : graph) (x o : oid) (fo : fname) {struct g} : bool :=
   match g with
-  | G f n cs =>
-      (n && slot_eqb x f o fo) ||
-      existsb (fun y => existsb (fun c => matched h c y o fo) cs) (h x f)
+  | G fs n _ cs =>
+      existsb (fun f => t x f &&
+        ((n && slot_eqb x f o fo) || existsb (fun y => existsb (fun c => matched t h c y o fo) cs) (h x f))) fs
   end.
 
 Lemma graph_ind' (P : graph -> Prop) :
-  (forall f n cs, Forall P cs -> P (G f n cs)) -> forall g, P g.
+  (forall fs n e cs, Forall P cs -> P (G fs n e cs)) -> forall g, P g.
 Proof.
-  intros H. fix IH 1. intros [f n cs]. apply H.
+  intros H. fix IH 1. intros [fs n e cs]. apply H.
   induction cs as [|c cs IHcs]; constructor; [apply IH|apply IHcs].
 Qed.
 
@@ -93,6 +112,8 @@ Proof.
   intros H a Ha. destruct (p a) eqn:E; [|reflexivity].
   assert (existsb p l = true) by (apply existsb_exists; eauto). congruence.
 Qed.
+Lemma existsb_ext_In {A} (p q : A -> bool) l : (forall a, In a l -> p a = q a) -> existsb p l = existsb q l.
+Proof. induction l; cbn; intros H; [reflexivity|]. rewrite H, IHl; auto. Qed.
 Lemma interleave {A B C} (P : A -> list B) (O : A -> list C) (F : C -> list B) cs :
   Permutation (flat_map P cs ++ flat_map F (flat_map O cs))
               (flat_map (fun c => P c ++ flat_map F (O c)) cs).
@@ -101,6 +122,12 @@ Proof.
   rewrite flat_map_app. rewrite <- !app_assoc. apply Permutation_app_head.
   rewrite app_assoc. rewrite (Permutation_app_comm (flat_map P cs)).
   rewrite <- app_assoc. apply Permutation_app_head. exact IH.
+Qed.
+Lemma flat_map_plus {A B} (P Q : A -> list B) l :
+  Permutation (flat_map P l ++ flat_map Q l) (flat_map (fun a => P a ++ Q a) l).
+Proof.
+  induction l; cbn [flat_map]; [reflexivity|]. rewrite <- IHl. rewrite <- !app_assoc. apply Permutation_app_head.
+  rewrite !app_assoc. apply Permutation_app_tail. apply Permutation_app_comm.
 Qed.
 Lemma Permutation_flat_map_In {A B} (P Q : A -> list B) cs :
   (forall c, In c cs -> Permutation (P c) (Q c)) -> Permutation (flat_map P cs) (flat_map Q cs).
@@ -132,236 +159,331 @@ Proof. induction l; cbn [flat_map]; [reflexivity|]. rewrite flat_map_app, IHl. r
 Lemma flat_map_map {A B C} (f : B -> list C) (g : A -> B) l :
   flat_map f (map g l) = flat_map (fun x => f (g x)) l.
 Proof. induction l; cbn; [reflexivity|]. rewrite IHl. reflexivity. Qed.
-
 Lemma map_flat_map {A B C} (f : B -> C) (g : A -> list B) l :
   map f (flat_map g l) = flat_map (fun y => map f (g y)) l.
 Proof. induction l; cbn; [reflexivity|]. rewrite map_app, IHl. reflexivity. Qed.
 
 (* ---- frame ---- *)
-Lemma expected_frame h k g : forall x o fo v,
-  visits h g x o fo = false -> expected (upd h o fo v) k g x = expected h k g x.
+Lemma visits_node_false t h fs n e cs x o fo :
+  visits t h (G fs n e cs) x o fo = false ->
+  forall f, In f fs -> t x f = true ->
+    slot_eqb x f o fo = false /\
+    forall y, In y (h x f) -> forall c, In c cs -> visits t h c y o fo = false.
 Proof.
-  induction g as [f n cs IH] using graph_ind'. intros x o fo v Hv.
-  cbn [expected visits] in *. rewrite Forall_forall in IH.
-  apply orb_false_iff in Hv. destruct Hv as [Hslot Hrest].
-  do 2 f_equal.
+  cbn [visits]. intros V f Hf Tf. pose proof (existsb_false_In _ _ V f Hf) as E. cbv beta in E.
+  rewrite Tf in E. cbn [andb] in E. apply orb_false_iff in E. destruct E as [E1 E2]. split; [exact E1|].
+  intros y Hy c Hc. pose proof (existsb_false_In _ _ E2 y Hy) as E3. cbv beta in E3.
+  exact (existsb_false_In _ _ E3 c Hc).
+Qed.
+
+Lemma expected_frame t h k g : forall x o fo v,
+  visits t h g x o fo = false -> expected t (upd h o fo v) k g x = expected t h k g x.
+Proof.
+  induction g as [fs n e cs IH] using graph_ind'. intros x o fo v Hv.
+  rewrite Forall_forall in IH. cbn [expected]. f_equal.
+  apply flat_map_ext_In. intros f Hf. destruct (t x f) eqn:Tf; [|reflexivity].
+  destruct (visits_node_false _ _ _ _ _ _ _ _ _ Hv f Hf Tf) as [Hslot Hrest]. f_equal.
   change (upd h o fo v x f) with (if slot_eqb x f o fo then v else h x f). rewrite Hslot.
   apply flat_map_ext_In. intros y Hy. apply flat_map_ext_In. intros c Hc.
-  apply IH; [exact Hc|].
-  pose proof (existsb_false_In _ _ Hrest y Hy) as E. cbv beta in E.
-  exact (existsb_false_In _ _ E c Hc).
+  apply IH; [exact Hc|]. apply Hrest; assumption.
 Qed.
 
-Lemma matched_frame h g : forall x o fo v a fa,
-  visits h g x o fo = false -> matched (upd h o fo v) g x a fa = matched h g x a fa.
+Lemma matched_frame t h g : forall x o fo v a fa,
+  visits t h g x o fo = false -> matched t (upd h o fo v) g x a fa = matched t h g x a fa.
 Proof.
-  induction g as [f n cs IH] using graph_ind'. intros x o fo v a fa Hv.
-  cbn [matched visits] in *. rewrite Forall_forall in IH.
-  apply orb_false_iff in Hv. destruct Hv as [Hslot Hrest].
-  f_equal.
+  induction g as [fs n e cs IH] using graph_ind'. intros x o fo v a fa Hv.
+  rewrite Forall_forall in IH. cbn [matched].
+  apply existsb_ext_In. intros f Hf. destruct (t x f) eqn:Tf; [|reflexivity]. cbn [andb].
+  destruct (visits_node_false _ _ _ _ _ _ _ _ _ Hv f Hf Tf) as [Hslot Hrest]. f_equal.
   change (upd h o fo v x f) with (if slot_eqb x f o fo then v else h x f). rewrite Hslot.
-  induction (h x f) as [|y ys IHy]; [reflexivity|]. cbn [existsb] in *.
-  apply orb_false_iff in Hrest. destruct Hrest as [Hy Hys].
-  rewrite (IHy Hys). f_equal.
-  clear IHy Hys. induction cs as [|c cs IHc]; [reflexivity|]. cbn [existsb] in *.
-  apply orb_false_iff in Hy. destruct Hy as [Hc Hcs].
-  rewrite (IH c (or_introl eq_refl) y o fo v a fa Hc).
-  rewrite IHc; [reflexivity| |exact Hcs]. intros c' Hc'. apply IH. right. exact Hc'.
+  apply existsb_ext_In. intros y Hy. apply existsb_ext_In. intros c Hc.
+  apply IH; [exact Hc|]. apply Hrest; assumption.
 Qed.
 
-Lemma occ_nil_of_not_visits h o fo g : forall x, visits h g x o fo = false -> occ h g x o fo = [].
+Lemma visits_frame t h g o fo v : forall x,
+  visits t h g x o fo = false -> visits t (upd h o fo v) g x o fo = false.
 Proof.
-  induction g as [f n cs IH] using graph_ind'. intros x V. cbn [visits occ] in *.
-  rewrite Forall_forall in IH.
-  apply orb_false_iff in V. destruct V as [V1 V2]. rewrite V1. cbn [app].
-  apply flat_map_nil_In. intros y Hy. apply flat_map_nil_In. intros c Hc.
-  apply IH; [exact Hc|].
-  pose proof (existsb_false_In _ _ V2 y Hy) as E. cbv beta in E.
-  exact (existsb_false_In _ _ E c Hc).
+  induction g as [fs n e cs IH] using graph_ind'. intros x V. rewrite Forall_forall in IH.
+  assert (visits t (upd h o fo v) (G fs n e cs) x o fo = visits t h (G fs n e cs) x o fo) as E; [|congruence].
+  cbn [visits]. apply existsb_ext_In. intros f Hf. destruct (t x f) eqn:Tf; [|reflexivity]. cbn [andb].
+  destruct (visits_node_false _ _ _ _ _ _ _ _ _ V f Hf Tf) as [Hslot Hrest]. f_equal.
+  change (upd h o fo v x f) with (if slot_eqb x f o fo then v else h x f). rewrite Hslot.
+  apply existsb_ext_In. intros y Hy. apply existsb_ext_In. intros c Hc.
+  rewrite (IH c Hc y (Hrest y Hy c Hc)). symmetry. apply Hrest; assumption.
 Qed.
 
-(* Σ_{y ∈ ys} Σ_{c ∈ cs} expected h k c y *)
-Definition sumexp (h : heap) (k : hkey) (cs : list graph) (ys : list oid) : list hook :=
-  flat_map (fun y => flat_map (fun c => expected h k c y) cs) ys.
+Lemma occ_nil_of_not_visits t h o fo g : forall x, visits t h g x o fo = false -> occ t h g x o fo = [].
+Proof.
+  induction g as [fs n e cs IH] using graph_ind'. intros x V. rewrite Forall_forall in IH. cbn [occ].
+  apply flat_map_nil_In. intros f Hf. destruct (t x f) eqn:Tf; [|reflexivity].
+  destruct (visits_node_false _ _ _ _ _ _ _ _ _ V f Hf Tf) as [Hslot Hrest]. rewrite Hslot. cbn [app].
+  apply flat_map_nil_In. intros y Hy. apply flat_map_nil_In. intros c Hc.
+  apply IH; [exact Hc|]. apply Hrest; assumption.
+Qed.
 
-Lemma sumexp_app h k cs ys zs : sumexp h k cs (ys ++ zs) = sumexp h k cs ys ++ sumexp h k cs zs.
+(* Σ_{y ∈ ys} Σ_{c ∈ cs} expected t h k c y *)
+Definition sumexp (t : traits) (h : heap) (k : hkey) (cs : list graph) (ys : list oid) : list hook :=
+  flat_map (fun y => flat_map (fun c => expected t h k c y) cs) ys.
+
+Lemma sumexp_app t h k cs ys zs : sumexp t h k cs (ys ++ zs) = sumexp t h k cs ys ++ sumexp t h k cs zs.
 Proof. unfold sumexp. apply flat_map_app. Qed.
 
-(* ---- the substitution theorem ---- *)
+Lemma sumexp_singletons t h k cs ys :
+  Permutation (flat_map (fun c => sumexp t h k [c] ys) cs) (sumexp t h k cs ys).
+Proof.
+  unfold sumexp.
+  rewrite (flat_map_swap (fun c y => flat_map (fun c0 => expected t h k c0 y) [c]) cs ys).
+  apply Permutation_flat_map_In. intros y _.
+  erewrite flat_map_ext_In; [reflexivity|]. intros c _. cbn [flat_map]. apply app_nil_r.
+Qed.
+
+(* ---- the substitution theorem (change of one heap slot) ---- *)
 Section Subst.
-  Variables (h : heap) (k : hkey) (o : oid) (fo : fname) (news : list oid).
+  Variables (t : traits) (h : heap) (k : hkey) (o : oid) (fo : fname) (news : list oid).
   Let olds := h o fo.
   Let h' := upd h o fo news.
 
   (* edge-acyclicity relative to the graph walked: below the old and new content of the
      slot, the residual graphs found at the slot do not come back to the slot *)
   Definition acyc_on (g : graph) (x : oid) : Prop :=
-    forall c, In c (occ h g x o fo) -> forall y, In y olds \/ In y news -> visits h c y o fo = false.
+    forall c, In c (occ t h g x o fo) -> forall y, In y olds \/ In y news -> visits t h c y o fo = false.
 
   Theorem expected_subst g : forall x, acyc_on g x ->
     Permutation
-      (expected h' k g x ++ flat_map (fun c => sumexp h k [c] olds) (occ h g x o fo))
-      (expected h  k g x ++ flat_map (fun c => sumexp h k [c] news) (occ h g x o fo)).
+      (expected t h' k g x ++ flat_map (fun c => sumexp t h k [c] olds) (occ t h g x o fo))
+      (expected t h  k g x ++ flat_map (fun c => sumexp t h k [c] news) (occ t h g x o fo)).
   Proof.
-    induction g as [f n cs IH] using graph_ind'. intros x acyc.
+    induction g as [fs n e cs IH] using graph_ind'. intros x acyc.
     unfold acyc_on in acyc. cbn [expected occ] in *. rewrite Forall_forall in IH.
+    rewrite <- !app_assoc. apply Permutation_app_head.
+    rewrite !interleave. apply Permutation_flat_map_In. intros f Hf.
+    assert (forall c, In c (if t x f then (if slot_eqb x f o fo then cs else []) ++
+                              flat_map (fun y => flat_map (fun c => occ t h c y o fo) cs) (h x f) else []) ->
+            forall y, In y olds \/ In y news -> visits t h c y o fo = false) as acycf.
+    { intros c Hc. apply acyc. apply in_flat_map. exists f. split; assumption. }
+    clear acyc. destruct (t x f) eqn:Tf; [|reflexivity].
     destruct (slot_eqb x f o fo) eqn:Hs.
     - apply slot_eqb_true in Hs. destruct Hs as [-> ->].
-      assert (forall c, In c cs -> forall y, In y olds \/ In y news -> visits h c y o fo = false) as acyc'.
-      { intros c Hc. apply acyc. apply in_or_app. left. exact Hc. }
+      assert (forall c, In c cs -> forall y, In y olds \/ In y news -> visits t h c y o fo = false) as acyc'.
+      { intros c Hc. apply acycf. apply in_or_app. left. exact Hc. }
       assert (h' o fo = news) as Hn by (unfold h'; apply upd_same).
       rewrite Hn. fold olds.
-      assert (flat_map (fun y => flat_map (fun c => occ h c y o fo) cs) olds = []) as Hbelow.
+      assert (flat_map (fun y => flat_map (fun c => occ t h c y o fo) cs) olds = []) as Hbelow.
       { apply flat_map_nil_In. intros y Hy. apply flat_map_nil_In. intros c Hc.
         apply occ_nil_of_not_visits. apply acyc'; [exact Hc|left; exact Hy]. }
       rewrite Hbelow, app_nil_r.
-      assert (flat_map (fun y => flat_map (fun c => expected h' k c y) cs) news = sumexp h k cs news) as Hfr.
+      assert (flat_map (fun y => flat_map (fun c => expected t h' k c y) cs) news = sumexp t h k cs news) as Hfr.
       { unfold sumexp. apply flat_map_ext_In. intros y Hy. apply flat_map_ext_In. intros c Hc.
         apply expected_frame. apply acyc'; [exact Hc|right; exact Hy]. }
       rewrite Hfr.
-      change (flat_map (fun y => flat_map (fun c => expected h k c y) cs) olds) with (sumexp h k cs olds).
-      rewrite <- !app_assoc. do 2 apply Permutation_app_head.
-      assert (forall ys, Permutation (flat_map (fun c => sumexp h k [c] ys) cs) (sumexp h k cs ys)) as SW.
-      { intros ys. unfold sumexp.
-        rewrite (flat_map_swap (fun c y => flat_map (fun c0 => expected h k c0 y) [c]) cs ys).
-        apply Permutation_flat_map_In. intros y _.
-        erewrite flat_map_ext_In; [reflexivity|]. intros c _. cbn [flat_map]. apply app_nil_r. }
-      rewrite !SW. apply Permutation_app_comm.
+      change (flat_map (fun y => flat_map (fun c => expected t h k c y) cs) olds) with (sumexp t h k cs olds).
+      rewrite <- !app_assoc. apply Permutation_app_head.
+      rewrite !sumexp_singletons. apply Permutation_app_comm.
     - assert (h' x f = h x f) as Hsame by (unfold h', upd; rewrite Hs; reflexivity).
       rewrite Hsame. cbn [app] in *.
-      rewrite <- !app_assoc. do 2 apply Permutation_app_head.
+      rewrite <- !app_assoc. apply Permutation_app_head.
       rewrite !interleave.
       apply Permutation_flat_map_In. intros y Hy.
       rewrite !interleave.
       apply Permutation_flat_map_In. intros c Hc. apply IH; [exact Hc|].
-      intros c0 Hc0. apply acyc.
+      intros c0 Hc0. apply acycf.
       apply in_flat_map. exists y. split; [exact Hy|]. apply in_flat_map. exists c. split; assumption.
-  Qed.
-
-  (* the set-valued reading: what is matched after the change, for slots other than below *)
-  Lemma matched_slot_itself g : forall x, matched h' g x o fo = true -> visits h' g x o fo = true.
-  Proof.
-    induction g as [f n cs IH] using graph_ind'. intros x. cbn [matched visits]. rewrite Forall_forall in IH.
-    rewrite !orb_true_iff. intros [A|A].
-    - left. apply andb_true_iff in A. tauto.
-    - right. apply existsb_exists in A. destruct A as [y [Hy A]]. apply existsb_exists in A.
-      destruct A as [c [Hc A]]. apply existsb_exists. exists y. split; [exact Hy|].
-      apply existsb_exists. exists c. split; [exact Hc|]. apply IH; assumption.
   Qed.
 End Subst.
 
-(* ---- maintainers found on a slot ---- *)
+(* ---- the trait-addition theorem (add_trait on one object) ---- *)
+(* the graphs whose node would observe the new trait f0 of x0, one per visit of x0 *)
+Fixpoint added_occ (t : traits) (h : heap) (g : graph) (x x0 : oid) (f0 : fname) {struct g} : list graph :=
+  match g with
+  | G fs _ _ cs =>
+      flat_map (fun f => if slot_eqb x f x0 f0 then [g] else []) fs ++
+      flat_map (fun f =>
+        if t x f then flat_map (fun y => flat_map (fun c => added_occ t h c y x0 f0) cs) (h x f) else []) fs
+  end.
+
+Definition own_of (k : hkey) (x0 : oid) (f0 : fname) (g : graph) : list hook :=
+  match g with G _ n _ cs => own k n cs x0 f0 end.
+
+Section AddTrait.
+  Variables (t : traits) (h : heap) (k : hkey) (x0 : oid) (f0 : fname).
+  Hypothesis fresh_trait : t x0 f0 = false.
+  Hypothesis no_value : h x0 f0 = [].
+  Let t' := add_trait t x0 f0.
+
+  Theorem expected_add_trait g : forall x,
+    Permutation (expected t' h k g x)
+                (expected t h k g x ++ flat_map (own_of k x0 f0) (added_occ t h g x x0 f0)).
+  Proof.
+    induction g as [fs n e cs IH] using graph_ind'. intros x. rewrite Forall_forall in IH.
+    cbn [expected added_occ]. rewrite <- app_assoc. apply Permutation_app_head.
+    rewrite flat_map_app, !ffm. rewrite !flat_map_plus.
+    apply Permutation_flat_map_In. intros f Hf.
+    unfold t', add_trait. destruct (slot_eqb x f x0 f0) eqn:Hs.
+    - apply slot_eqb_true in Hs. destruct Hs as [-> ->]. rewrite fresh_trait, no_value.
+      cbn [flat_map app own_of]. rewrite !app_nil_r. reflexivity.
+    - destruct (t x f); [|reflexivity]. cbn [flat_map app]. rewrite <- app_assoc. apply Permutation_app_head.
+      rewrite interleave. apply Permutation_flat_map_In. intros y Hy.
+      rewrite interleave. apply Permutation_flat_map_In. intros c Hc. apply IH. exact Hc.
+  Qed.
+End AddTrait.
+
+(* ---- notifiers found on a slot ---- *)
 Definition maint_of (o : oid) (fo : fname) (hk : hook) : list (hkey * graph) :=
   let '(x, f, kd) := hk in
-  if slot_eqb x f o fo then match kd with KMaint k c => [(k, c)] | KUser _ => [] end else [].
+  if slot_eqb x f o fo then match kd with KMaint k c => [(k, c)] | _ => [] end else [].
 Definition maint_on (H : list hook) o fo : list (hkey * graph) := flat_map (maint_of o fo) H.
 Definition user_of (o : oid) (fo : fname) (hk : hook) : list hkey :=
   let '(x, f, kd) := hk in
-  if slot_eqb x f o fo then match kd with KUser k => [k] | KMaint _ _ => [] end else [].
+  if slot_eqb x f o fo then match kd with KUser k => [k] | _ => [] end else [].
 Definition users_on (H : list hook) o fo : list hkey := flat_map (user_of o fo) H.
+(* the trait_added maintainers of object x0 *)
+Definition added_of (x0 : oid) (hk : hook) : list (hkey * graph) :=
+  let '(x, f, kd) := hk in
+  if slot_eqb x f x0 TA then match kd with KAdded k g => [(k, g)] | _ => [] end else [].
+Definition added_on (H : list hook) x0 : list (hkey * graph) := flat_map (added_of x0) H.
 
-Lemma maint_of_user o fo x f k : maint_of o fo (x, f, KUser k) = [].
-Proof. unfold maint_of. destruct (slot_eqb x f o fo); reflexivity. Qed.
+Lemma maint_on_app A B o fo : maint_on (A ++ B) o fo = maint_on A o fo ++ maint_on B o fo.
+Proof. apply flat_map_app. Qed.
+Lemma users_on_app A B o fo : users_on (A ++ B) o fo = users_on A o fo ++ users_on B o fo.
+Proof. apply flat_map_app. Qed.
+Lemma added_on_app A B x0 : added_on (A ++ B) x0 = added_on A x0 ++ added_on B x0.
+Proof. apply flat_map_app. Qed.
 
-Lemma maint_on_expected h k o fo g : forall x,
-  Permutation (maint_on (expected h k g x) o fo) (map (pair k) (occ h g x o fo)).
+Lemma added_on_flat_map {A} (g : A -> list (oid * fname * kind)) l x0 :
+  added_on (flat_map g l) x0 = flat_map (fun a => added_on (g a) x0) l.
+Proof. unfold added_on. apply ffm. Qed.
+
+Lemma maint_on_own k n cs x f o fo :
+  maint_on (own k n cs x f) o fo = map (pair k) (if slot_eqb x f o fo then cs else []).
 Proof.
-  induction g as [f n cs IH] using graph_ind'. intros x. rewrite Forall_forall in IH.
-  cbn [expected occ]. unfold maint_on. rewrite !flat_map_app, map_app.
-  assert (forall T, Permutation T (map (pair k) (if slot_eqb x f o fo then cs else []) ++
-     map (pair k) (flat_map (fun y : oid => flat_map (fun c : graph => occ h c y o fo) cs) (h x f))) ->
-     Permutation (flat_map (maint_of o fo) (if n then [(x, f, KUser k)] else []) ++ T)
-       (map (pair k) (if slot_eqb x f o fo then cs else []) ++
-     map (pair k) (flat_map (fun y : oid => flat_map (fun c : graph => occ h c y o fo) cs) (h x f)))) as U.
-  { intros T HT. destruct n; cbn [flat_map]; rewrite ?maint_of_user; cbn [app]; exact HT. }
-  apply U. clear U.
-  apply Permutation_app.
-  - destruct (slot_eqb x f o fo) eqn:Hs.
-    + clear IH. induction cs as [|c cs IHcs]; cbn; [reflexivity|]. rewrite Hs. cbn. apply perm_skip. exact IHcs.
-    + clear IH. induction cs as [|c cs IHcs]; cbn; [reflexivity|]. rewrite Hs. cbn. exact IHcs.
-  - rewrite ffm, map_flat_map.
-    apply Permutation_flat_map_In. intros y _.
-    rewrite ffm, map_flat_map.
-    apply Permutation_flat_map_In. intros c Hc. apply IH. exact Hc.
+  unfold own. rewrite maint_on_app.
+  assert (maint_on (if n then [(x, f, KUser k)] else []) o fo = []) as U.
+  { destruct n; cbn; [|reflexivity]. destruct (slot_eqb x f o fo); reflexivity. }
+  rewrite U. cbn [app]. unfold maint_on.
+  destruct (slot_eqb x f o fo) eqn:Hs; induction cs as [|c cs IH]; cbn; rewrite ?Hs; cbn;
+    try reflexivity; try (f_equal; exact IH); exact IH.
+Qed.
+Lemma users_on_own k n cs x f o fo :
+  users_on (own k n cs x f) o fo = if n && slot_eqb x f o fo then [k] else [].
+Proof.
+  unfold own. rewrite users_on_app.
+  assert (users_on (map (fun c => (x, f, KMaint k c)) cs) o fo = []) as M.
+  { unfold users_on. apply flat_map_nil_In. intros a Ha. apply in_map_iff in Ha. destruct Ha as [c [<- _]].
+    cbn. destruct (slot_eqb x f o fo); reflexivity. }
+  rewrite M, app_nil_r. destruct n; cbn; [|reflexivity]. destruct (slot_eqb x f o fo); reflexivity.
+Qed.
+Lemma added_on_own k n cs x f x0 : added_on (own k n cs x f) x0 = [].
+Proof.
+  unfold added_on. apply flat_map_nil_In. intros [[z fz] kd] I. unfold own in I. apply in_app_or in I.
+  destruct I as [I|I].
+  - destruct n; [|destruct I]. destruct I as [E|[]]. inversion E. cbn. destruct (slot_eqb _ _ _ _); reflexivity.
+  - apply in_map_iff in I. destruct I as [c [E _]]. inversion E. cbn. destruct (slot_eqb _ _ _ _); reflexivity.
 Qed.
 
-Lemma users_on_expected h k o fo g : forall x,
-  (exists u, In u (users_on (expected h k g x) o fo)) <-> matched h g x o fo = true.
+Lemma maint_on_expected t h k o fo g : forall x,
+  Permutation (maint_on (expected t h k g x) o fo) (map (pair k) (occ t h g x o fo)).
 Proof.
-  induction g as [f n cs IH] using graph_ind'. intros x. rewrite Forall_forall in IH.
-  cbn [expected matched]. unfold users_on. rewrite !flat_map_app.
-  assert (forall l, l = map (fun c => (x, f, KMaint k c)) cs -> flat_map (user_of o fo) l = []) as Mn.
-  { intros l ->. apply flat_map_nil_In. intros a Ha. apply in_map_iff in Ha. destruct Ha as [c [<- _]].
-    cbn. destruct (slot_eqb x f o fo); reflexivity. }
-  rewrite (Mn _ eq_refl). cbn [app]. rewrite orb_true_iff. split.
-  - intros [u Hu]. apply in_app_or in Hu. destruct Hu as [Hu|Hu].
-    + left. destruct n; [|destruct Hu]. cbn in Hu. destruct (slot_eqb x f o fo); [reflexivity|destruct Hu].
-    + right. apply in_flat_map in Hu. destruct Hu as [hk [Hhk Hu]].
+  induction g as [fs n e cs IH] using graph_ind'. intros x. rewrite Forall_forall in IH.
+  cbn [expected occ]. rewrite maint_on_app.
+  assert (maint_on (if e then [(x, TA, KAdded k (G fs n e cs))] else []) o fo = []) as A.
+  { destruct e; cbn; [|reflexivity]. destruct (slot_eqb x TA o fo); reflexivity. }
+  rewrite A. cbn [app]. unfold maint_on at 1. rewrite ffm, map_flat_map.
+  apply Permutation_flat_map_In. intros f Hf. destruct (t x f); [|reflexivity].
+  change (flat_map (maint_of o fo) ?l) with (maint_on l o fo). rewrite maint_on_app, maint_on_own, map_app.
+  apply Permutation_app_head. unfold maint_on. rewrite ffm, map_flat_map.
+  apply Permutation_flat_map_In. intros y _. rewrite ffm, map_flat_map.
+  apply Permutation_flat_map_In. intros c Hc. apply IH. exact Hc.
+Qed.
+
+Lemma users_on_expected t h k o fo g : forall x,
+  (exists u, In u (users_on (expected t h k g x) o fo)) <-> matched t h g x o fo = true.
+Proof.
+  induction g as [fs n e cs IH] using graph_ind'. intros x. rewrite Forall_forall in IH.
+  cbn [expected matched]. rewrite users_on_app.
+  assert (users_on (if e then [(x, TA, KAdded k (G fs n e cs))] else []) o fo = []) as A.
+  { destruct e; cbn; [|reflexivity]. destruct (slot_eqb x TA o fo); reflexivity. }
+  rewrite A. cbn [app]. unfold users_on at 1. split.
+  - intros [u Hu]. apply in_flat_map in Hu. destruct Hu as [hk [Hhk Hu]].
+    apply in_flat_map in Hhk. destruct Hhk as [f [Hf Hhk]].
+    apply existsb_exists. exists f. split; [exact Hf|]. destruct (t x f); [|destruct Hhk]. cbn [andb].
+    apply in_app_or in Hhk. destruct Hhk as [Hhk|Hhk].
+    + assert (In u (users_on (own k n cs x f) o fo)) as I by (unfold users_on; apply in_flat_map; eauto).
+      rewrite users_on_own in I. destruct (n && slot_eqb x f o fo); [reflexivity|destruct I].
+    + apply orb_true_iff. right.
       apply in_flat_map in Hhk. destruct Hhk as [y [Hy Hhk]].
       apply in_flat_map in Hhk. destruct Hhk as [c [Hc Hhk]].
       apply existsb_exists. exists y. split; [exact Hy|]. apply existsb_exists. exists c. split; [exact Hc|].
       apply IH; [exact Hc|]. exists u. unfold users_on. apply in_flat_map. exists hk. split; assumption.
-  - intros [A|A].
-    + apply andb_true_iff in A. destruct A as [-> A]. exists k. apply in_or_app. left.
-      cbn. rewrite A. left. reflexivity.
-    + apply existsb_exists in A. destruct A as [y [Hy A]]. apply existsb_exists in A.
-      destruct A as [c [Hc A]]. apply (IH c Hc y) in A. destruct A as [u Hu].
-      exists u. apply in_or_app. right. unfold users_on in Hu.
-      apply in_flat_map in Hu. destruct Hu as [hk [Hhk Hu]].
-      apply in_flat_map. exists hk. split; [|exact Hu].
+  - intros M. apply existsb_exists in M. destruct M as [f [Hf M]]. destruct (t x f) eqn:Tf; [|discriminate].
+    cbn [andb] in M. apply orb_true_iff in M. destruct M as [M|M].
+    + exists k.
+      assert (In k (users_on (own k n cs x f) o fo)) as I by (rewrite users_on_own, M; left; reflexivity).
+      unfold users_on in I. apply in_flat_map in I. destruct I as [hk [Hhk Hu]].
+      apply in_flat_map. exists hk. split; [|exact Hu]. apply in_flat_map. exists f. split; [exact Hf|].
+      rewrite Tf. apply in_or_app. left. exact Hhk.
+    + apply existsb_exists in M. destruct M as [y [Hy M]]. apply existsb_exists in M.
+      destruct M as [c [Hc M]]. apply (IH c Hc y) in M. destruct M as [u Hu].
+      exists u. unfold users_on in Hu. apply in_flat_map in Hu. destruct Hu as [hk [Hhk Hu]].
+      apply in_flat_map. exists hk. split; [|exact Hu]. apply in_flat_map. exists f. split; [exact Hf|].
+      rewrite Tf. apply in_or_app. right.
       apply in_flat_map. exists y. split; [exact Hy|]. apply in_flat_map. exists c. split; assumption.
 Qed.
 
-Lemma users_on_expected_key h k o fo g x u : In u (users_on (expected h k g x) o fo) -> u = k.
+Lemma expected_user_key t h k g : forall x z fz k', In (z, fz, KUser k') (expected t h k g x) -> k' = k.
 Proof.
-  revert x. induction g as [f n cs IH] using graph_ind'. intros x. rewrite Forall_forall in IH.
-  cbn [expected]. unfold users_on. rewrite !flat_map_app. intros Hu.
-  apply in_app_or in Hu. destruct Hu as [Hu|Hu].
-  - destruct n; [|destruct Hu]. cbn in Hu. destruct (slot_eqb x f o fo); cbn in Hu; [|destruct Hu].
-    destruct Hu as [<-|[]]. reflexivity.
-  - apply in_app_or in Hu. destruct Hu as [Hu|Hu].
-    + apply in_flat_map in Hu. destruct Hu as [hk [Hhk Hu]]. apply in_map_iff in Hhk.
-      destruct Hhk as [c [<- _]]. cbn in Hu. destruct (slot_eqb x f o fo); destruct Hu.
-    + apply in_flat_map in Hu. destruct Hu as [hk [Hhk Hu]].
-      apply in_flat_map in Hhk. destruct Hhk as [y [Hy Hhk]].
-      apply in_flat_map in Hhk. destruct Hhk as [c [Hc Hhk]].
-      apply (IH c Hc y). unfold users_on. apply in_flat_map. exists hk. split; assumption.
+  induction g as [fs n e cs IH] using graph_ind'. intros x z fz k' I. rewrite Forall_forall in IH.
+  cbn [expected] in I. apply in_app_or in I. destruct I as [I|I].
+  - destruct e; [|destruct I]. destruct I as [E|[]]. discriminate.
+  - apply in_flat_map in I. destruct I as [f [Hf I]]. destruct (t x f); [|destruct I].
+    apply in_app_or in I. destruct I as [I|I].
+    + unfold own in I. apply in_app_or in I. destruct I as [I|I].
+      * destruct n; [|destruct I]. destruct I as [E|[]]. inversion E. reflexivity.
+      * apply in_map_iff in I. destruct I as [c [E _]]. discriminate.
+    + apply in_flat_map in I. destruct I as [y [Hy I]]. apply in_flat_map in I. destruct I as [c [Hc I]].
+      apply (IH c Hc y z fz k' I).
+Qed.
+
+Lemma users_on_expected_key t h k o fo g x u : In u (users_on (expected t h k g x) o fo) -> u = k.
+Proof.
+  unfold users_on. intros I. apply in_flat_map in I. destruct I as [[[z fz] kd] [Hhk Hu]].
+  cbn in Hu. destruct (slot_eqb z fz o fo); [|destruct Hu]. destruct kd as [k'|k' c|k' c]; [|destruct Hu|destruct Hu].
+  destruct Hu as [<-|[]]. eapply expected_user_key. exact Hhk.
 Qed.
 
 (* ---- several registrations ---- *)
-Definition expected_reg (h : heap) (r : reg) : list hook := expected h (fst r) (snd r) (snd (fst r)).
-Definition expected_all (h : heap) (rs : list reg) : list hook := flat_map (expected_reg h) rs.
-Definition occ_reg (h : heap) (o : oid) (fo : fname) (r : reg) : list (hkey * graph) :=
-  map (pair (fst r)) (occ h (snd r) (snd (fst r)) o fo).
-Definition occ_all (h : heap) (rs : list reg) (o : oid) (fo : fname) : list (hkey * graph) :=
-  flat_map (occ_reg h o fo) rs.
+Definition expected_reg (t : traits) (h : heap) (r : reg) : list hook := expected t h (fst r) (snd r) (snd (fst r)).
+Definition expected_all (t : traits) (h : heap) (rs : list reg) : list hook := flat_map (expected_reg t h) rs.
+Definition occ_reg (t : traits) (h : heap) (o : oid) (fo : fname) (r : reg) : list (hkey * graph) :=
+  map (pair (fst r)) (occ t h (snd r) (snd (fst r)) o fo).
+Definition occ_all (t : traits) (h : heap) (rs : list reg) (o : oid) (fo : fname) : list (hkey * graph) :=
+  flat_map (occ_reg t h o fo) rs.
 
-Definition S_of (h : heap) (M : list (hkey * graph)) (ys : list oid) : list hook :=
-  flat_map (fun kc => sumexp h (fst kc) [snd kc] ys) M.
+Definition S_of (t : traits) (h : heap) (M : list (hkey * graph)) (ys : list oid) : list hook :=
+  flat_map (fun kc => sumexp t h (fst kc) [snd kc] ys) M.
 
-Lemma S_of_app h M ys zs : Permutation (S_of h M (ys ++ zs)) (S_of h M ys ++ S_of h M zs).
+Lemma S_of_app t h M ys zs : Permutation (S_of t h M (ys ++ zs)) (S_of t h M ys ++ S_of t h M zs).
 Proof.
   unfold S_of. induction M as [|c M IH]; cbn [flat_map]; [reflexivity|].
   rewrite sumexp_app, IH. rewrite <- !app_assoc. apply Permutation_app_head.
   rewrite !app_assoc. apply Permutation_app_tail. apply Permutation_app_comm.
 Qed.
-Lemma S_of_perm_ys h M ys zs : Permutation ys zs -> Permutation (S_of h M ys) (S_of h M zs).
+Lemma S_of_perm_ys t h M ys zs : Permutation ys zs -> Permutation (S_of t h M ys) (S_of t h M zs).
 Proof.
   intros P. unfold S_of. apply Permutation_flat_map_In. intros c _.
   unfold sumexp. apply flat_map_perm. exact P.
 Qed.
-Lemma S_of_perm_M h M M' ys : Permutation M M' -> Permutation (S_of h M ys) (S_of h M' ys).
+Lemma S_of_perm_M t h M M' ys : Permutation M M' -> Permutation (S_of t h M ys) (S_of t h M' ys).
 Proof. intros P. unfold S_of. apply flat_map_perm. exact P. Qed.
 
-Lemma maint_on_expected_all h rs o fo :
-  Permutation (maint_on (expected_all h rs) o fo) (occ_all h rs o fo).
+Lemma maint_on_expected_all t h rs o fo :
+  Permutation (maint_on (expected_all t h rs) o fo) (occ_all t h rs o fo).
 Proof.
   unfold maint_on, expected_all, occ_all. rewrite ffm.
   apply Permutation_flat_map_In. intros [k g] _. apply maint_on_expected.
 Qed.
 
 Section Step.
-  Variables (h : heap) (rs : list reg) (o : oid) (fo : fname).
+  Variables (t : traits) (h : heap) (rs : list reg) (o : oid) (fo : fname).
   Variables (news removed added : list oid).
   Let olds := h o fo.
   Let h' := upd h o fo news.
@@ -371,18 +493,18 @@ Section Step.
   Hypothesis added_new : incl added news.
   (* edge-acyclicity: the residual graphs at the slot do not lead back to the slot from
      its old or new content *)
-  Hypothesis acyc : forall kc, In kc (occ_all h rs o fo) ->
-      forall y, In y olds \/ In y news -> visits h (snd kc) y o fo = false.
+  Hypothesis acyc : forall kc, In kc (occ_all t h rs o fo) ->
+      forall y, In y olds \/ In y news -> visits t h (snd kc) y o fo = false.
 
   Variables (H H' : list hook).
-  Hypothesis inv : Permutation H (expected_all h rs).
+  Hypothesis inv : Permutation H (expected_all t h rs).
   (* what the maintainers on the slot do, reading the heap AFTER the change *)
   Hypothesis step :
-    Permutation (H' ++ S_of h' (maint_on H o fo) removed) (H ++ S_of h' (maint_on H o fo) added).
+    Permutation (H' ++ S_of t h' (maint_on H o fo) removed) (H ++ S_of t h' (maint_on H o fo) added).
 
   Lemma S_of_frame M ys :
-    (forall kc, In kc M -> In kc (occ_all h rs o fo)) ->
-    (forall y, In y ys -> In y olds \/ In y news) -> S_of h' M ys = S_of h M ys.
+    (forall kc, In kc M -> In kc (occ_all t h rs o fo)) ->
+    (forall y, In y ys -> In y olds \/ In y news) -> S_of t h' M ys = S_of t h M ys.
   Proof.
     intros HM Hy. unfold S_of. apply flat_map_ext_In. intros kc Hkc. unfold sumexp.
     apply flat_map_ext_In. intros y Iy. cbn [flat_map]. f_equal.
@@ -390,47 +512,123 @@ Section Step.
   Qed.
 
   Lemma subst_all :
-    Permutation (expected_all h' rs ++ S_of h (occ_all h rs o fo) olds)
-                (expected_all h rs ++ S_of h (occ_all h rs o fo) news).
+    Permutation (expected_all t h' rs ++ S_of t h (occ_all t h rs o fo) olds)
+                (expected_all t h rs ++ S_of t h (occ_all t h rs o fo) news).
   Proof.
     unfold expected_all, occ_all, S_of. rewrite !interleave.
     apply Permutation_flat_map_In. intros [k g] Hr. unfold expected_reg, occ_reg. cbn [fst snd].
     rewrite !flat_map_map. cbn [fst snd].
-    apply (expected_subst h k o fo news g (snd k)).
+    apply (expected_subst t h k o fo news g (snd k)).
     intros c Hc y Hy. apply (acyc (k, c)); [|exact Hy].
     apply in_flat_map. exists (k, g). split; [exact Hr|]. unfold occ_reg. cbn [fst snd].
     apply in_map. exact Hc.
   Qed.
 
-  Theorem inv_preserved_all : Permutation H' (expected_all h' rs).
+  Theorem inv_preserved_all : Permutation H' (expected_all t h' rs).
   Proof.
     set (M := maint_on H o fo) in *.
-    set (O := occ_all h rs o fo) in *.
+    set (O := occ_all t h rs o fo) in *.
     assert (Permutation M O) as MO.
     { subst M O. rewrite <- maint_on_expected_all. unfold maint_on. apply flat_map_perm. exact inv. }
     assert (forall kc, In kc M -> In kc O) as MinO by (intros kc; apply Permutation_in; exact MO).
     rewrite (S_of_frame M removed MinO) in step by (intros y Iy; left; apply removed_old; exact Iy).
     rewrite (S_of_frame M added MinO) in step by (intros y Iy; right; apply added_new; exact Iy).
     pose proof subst_all as SUB. fold O in SUB.
-    assert (Permutation (expected_all h' rs ++ S_of h O removed) (expected_all h rs ++ S_of h O added)) as KEY.
-    { apply (Permutation_app_inv_r (S_of h O olds)).
+    assert (Permutation (expected_all t h' rs ++ S_of t h O removed) (expected_all t h rs ++ S_of t h O added)) as KEY.
+    { apply (Permutation_app_inv_r (S_of t h O olds)).
       rewrite <- !app_assoc.
-      rewrite (Permutation_app_comm (S_of h O removed)), (Permutation_app_comm (S_of h O added)).
+      rewrite (Permutation_app_comm (S_of t h O removed)), (Permutation_app_comm (S_of t h O added)).
       rewrite !app_assoc. rewrite SUB. rewrite <- !app_assoc.
       apply Permutation_app_head.
       rewrite <- !S_of_app. apply S_of_perm_ys. exact delta. }
-    apply (Permutation_app_inv_r (S_of h O removed)).
+    apply (Permutation_app_inv_r (S_of t h O removed)).
     rewrite KEY. rewrite <- inv.
-    rewrite <- (S_of_perm_M h M O removed MO), <- (S_of_perm_M h M O added MO).
+    rewrite <- (S_of_perm_M t h M O removed MO), <- (S_of_perm_M t h M O added MO).
     exact step.
   Qed.
 End Step.
 
+(* ---- add_trait on the hook level ---- *)
+(* what one trait_added maintainer (graph g) adds for the new trait f0 of x0: the restricted
+   named observer's notifier and maintainers (_trait_added_observer.py observer_change_handler) *)
+Definition own_for (k : hkey) (x0 : oid) (f0 : fname) (g : graph) : list hook :=
+  match g with
+  | G fs n _ cs => flat_map (fun f => if Nat.eqb f f0 then own k n cs x0 f0 else []) fs
+  end.
+(* every node that names the dynamic trait f0 carries the trait_added extra graph *)
+Fixpoint wf_dyn (f0 : fname) (g : graph) {struct g} : bool :=
+  match g with
+  | G fs _ e cs => (e || negb (existsb (Nat.eqb f0) fs)) && forallb (wf_dyn f0) cs
+  end.
+
+Lemma own_for_nil k x0 f0 fs n e cs : existsb (Nat.eqb f0) fs = false -> own_for k x0 f0 (G fs n e cs) = [].
+Proof.
+  intros E. cbn [own_for]. apply flat_map_nil_In. intros f Hf.
+  destruct (Nat.eqb f f0) eqn:Q; [|reflexivity]. apply Nat.eqb_eq in Q. subst f.
+  pose proof (existsb_false_In _ _ E f0 Hf) as X. rewrite Nat.eqb_refl in X. discriminate.
+Qed.
+
+Lemma added_bridge t h k x0 f0 g : forall x, wf_dyn f0 g = true ->
+  Permutation (flat_map (own_of k x0 f0) (added_occ t h g x x0 f0))
+              (flat_map (fun kg => own_for (fst kg) x0 f0 (snd kg)) (added_on (expected t h k g x) x0)).
+Proof.
+  induction g as [fs n e cs IH] using graph_ind'. intros x W. rewrite Forall_forall in IH.
+  cbn [wf_dyn] in W. apply andb_true_iff in W. destruct W as [W1 W2]. rewrite forallb_forall in W2.
+  cbn [expected added_occ]. rewrite added_on_app, !flat_map_app. apply Permutation_app.
+  - (* this node *)
+    rewrite ffm.
+    assert (flat_map (fun f => flat_map (own_of k x0 f0) (if slot_eqb x f x0 f0 then [G fs n e cs] else [])) fs
+            = if Nat.eqb x x0 then own_for k x0 f0 (G fs n e cs) else []) as L.
+    { unfold slot_eqb. destruct (Nat.eqb x x0); cbn [andb own_for].
+      - apply flat_map_ext_In. intros f _. destruct (Nat.eqb f f0); cbn; rewrite ?app_nil_r; reflexivity.
+      - apply flat_map_nil_In. reflexivity. }
+    rewrite L. clear L.
+    destruct e; cbn [orb] in W1.
+    + cbn. unfold slot_eqb. rewrite Nat.eqb_refl, andb_true_r. destruct (Nat.eqb x x0); cbn; rewrite ?app_nil_r; reflexivity.
+    + apply negb_true_iff in W1. rewrite (own_for_nil k x0 f0 fs n false cs W1). cbn. destruct (Nat.eqb x x0); reflexivity.
+  - (* below *)
+    rewrite ffm. rewrite added_on_flat_map, ffm.
+    apply Permutation_flat_map_In. intros f Hf. destruct (t x f); [|reflexivity].
+    rewrite added_on_app, added_on_own. cbn [app].
+    rewrite added_on_flat_map, !ffm. apply Permutation_flat_map_In. intros y _.
+    rewrite added_on_flat_map, !ffm. apply Permutation_flat_map_In. intros c Hc.
+    apply IH; [exact Hc|]. apply W2. exact Hc.
+Qed.
+
+Theorem inv_add_trait_all t h rs x0 f0 H :
+  t x0 f0 = false -> h x0 f0 = [] -> forallb (fun r : reg => wf_dyn f0 (snd r)) rs = true ->
+  Permutation H (expected_all t h rs) ->
+  Permutation (H ++ flat_map (fun kg => own_for (fst kg) x0 f0 (snd kg)) (added_on H x0))
+              (expected_all (add_trait t x0 f0) h rs).
+Proof.
+  intros Ft Nv W I. rewrite forallb_forall in W.
+  assert (Permutation (added_on H x0) (added_on (expected_all t h rs) x0)) as A
+    by (unfold added_on; apply flat_map_perm; exact I).
+  rewrite (flat_map_perm _ _ _ A). rewrite I. clear A I.
+  unfold expected_all, added_on. rewrite !ffm. rewrite flat_map_plus. symmetry.
+  apply Permutation_flat_map_In. intros [k g] Hr. unfold expected_reg. cbn [fst snd].
+  rewrite (expected_add_trait t h k x0 f0 Ft Nv g (snd k)). apply Permutation_app_head.
+  rewrite <- ffm. apply added_bridge. apply (W (k, g) Hr).
+Qed.
+
 (* ---- decidable equality; the executable hook list ---- *)
+Fixpoint list_nat_eqb (a b : list nat) : bool :=
+  match a, b with
+  | [], [] => true
+  | x :: a', y :: b' => Nat.eqb x y && list_nat_eqb a' b'
+  | _, _ => false
+  end.
+Lemma list_nat_eqb_spec a : forall b, list_nat_eqb a b = true <-> a = b.
+Proof.
+  induction a as [|x a IH]; intros [|y b]; cbn; try (split; [discriminate|discriminate]).
+  - tauto.
+  - rewrite andb_true_iff, Nat.eqb_eq, IH. split; [intros [-> ->]; reflexivity|intros [= -> ->]; tauto].
+Qed.
+
 Fixpoint graph_eqb (g1 g2 : graph) {struct g1} : bool :=
   match g1, g2 with
-  | G f1 n1 cs1, G f2 n2 cs2 =>
-      Nat.eqb f1 f2 && Bool.eqb n1 n2 &&
+  | G f1 n1 e1 cs1, G f2 n2 e2 cs2 =>
+      list_nat_eqb f1 f2 && Bool.eqb n1 n2 && Bool.eqb e1 e2 &&
       (fix go (l1 l2 : list graph) : bool :=
          match l1, l2 with
          | [], [] => true
@@ -441,8 +639,8 @@ Fixpoint graph_eqb (g1 g2 : graph) {struct g1} : bool :=
 
 Lemma graph_eqb_spec g1 : forall g2, graph_eqb g1 g2 = true <-> g1 = g2.
 Proof.
-  induction g1 as [f1 n1 cs1 IH] using graph_ind'. intros [f2 n2 cs2]. cbn [graph_eqb].
-  rewrite !andb_true_iff, Nat.eqb_eq, eqb_true_iff.
+  induction g1 as [f1 n1 e1 cs1 IH] using graph_ind'. intros [f2 n2 e2 cs2]. cbn [graph_eqb].
+  rewrite !andb_true_iff, list_nat_eqb_spec, !eqb_true_iff.
   assert ((fix go (l1 l2 : list graph) : bool :=
              match l1, l2 with
              | [], [] => true
@@ -453,7 +651,7 @@ Proof.
     - split; reflexivity.
     - inversion IH as [|? ? Ha Hcs]; subst. rewrite andb_true_iff, (Ha b), (IHcs Hcs cs2).
       split; [intros [-> ->]; reflexivity|intros [= -> ->]; split; reflexivity]. }
-  rewrite L. split; [intros [[-> ->] ->]; reflexivity|intros [= -> -> ->]; repeat split].
+  rewrite L. split; [intros [[[-> ->] ->] ->]; reflexivity|intros [= -> -> -> ->]; repeat split].
 Qed.
 
 Definition hkey_eqb (a b : hkey) : bool := Nat.eqb (fst a) (fst b) && Nat.eqb (snd a) (snd b).
@@ -466,6 +664,7 @@ Definition kind_eqb (a b : kind) : bool :=
   match a, b with
   | KUser k, KUser k' => hkey_eqb k k'
   | KMaint k c, KMaint k' d => hkey_eqb k k' && graph_eqb c d
+  | KAdded k c, KAdded k' d => hkey_eqb k k' && graph_eqb c d
   | _, _ => false
   end.
 Definition hook_eqb (a b : hook) : bool :=
@@ -477,6 +676,8 @@ Proof.
   assert (kind_eqb k k' = true <-> k = k') as K.
   { destruct k, k'; cbn; try (split; [discriminate|discriminate]).
     - rewrite hkey_eqb_spec. split; [intros ->; reflexivity|intros [= ->]; reflexivity].
+    - rewrite andb_true_iff, hkey_eqb_spec, graph_eqb_spec.
+      split; [intros [-> ->]; reflexivity|intros [= -> ->]; split; reflexivity].
     - rewrite andb_true_iff, hkey_eqb_spec, graph_eqb_spec.
       split; [intros [-> ->]; reflexivity|intros [= -> ->]; split; reflexivity]. }
   rewrite K. split; [intros [[-> ->] ->]; reflexivity|intros [= -> -> ->]; repeat split].
